@@ -496,6 +496,29 @@ end
 def save {N} (ops : NumOps N) (readable : Bool) (v : Value N) : Option Bytes :=
   writeValue ops (if readable then some 0 else none) v
 
+/-- the `numpunct<char>` facet of the locale of the stream a value is written to -/
+structure StreamLocale where
+  decimalPoint : UInt8
+  thousandsSep : UInt8
+  grouping : List Nat
+deriving DecidableEq, Repr
+
+def StreamLocale.classic : StreamLocale := ⟨46, 44, []⟩
+
+/-- the locale in force while `write_value` runs: `value::write` imbues `Gen.writeImbue`
+(`"C"`) on the stream before the write and restores the original afterwards — on the
+unmodified tree unconditionally (`Gen.writeImbueUnconditional`, both read from the source). -/
+def effectiveLocale (loc : StreamLocale) : StreamLocale :=
+  if Gen.writeImbueUnconditional && Gen.writeImbue == [67] then StreamLocale.classic else loc
+
+/-- `value::write(out,tabs)` / `save(ostream&,how)` / `operator<<` on a stream whose locale is
+`loc`.  The number text of the model (`NumOps.print`) is `operator<<(double)` under the
+classic locale, so the model speaks about the write only when the locale in force is the
+classic one; `Props.save_locale_independent` shows that this is the case for **every**
+stream locale. -/
+def saveTo {N} (ops : NumOps N) (loc : StreamLocale) (readable : Bool) (v : Value N) : Option Bytes :=
+  if effectiveLocale loc = StreamLocale.classic then save ops readable v else none
+
 /-! ## Exact binary64 arithmetic: the driver's `NumOps` instance
 
 A double is its 64-bit pattern (`Nat`).  `ofDec` is round-to-nearest-even of the exact
